@@ -39,6 +39,7 @@ pub fn child(args: &[String]) {
         Some("v1") => c.proxy_protocol = Some(passage::config::ProxyProtocol { allow_v1: true, allow_v2: false }),
         Some("v2") => c.proxy_protocol = Some(passage::config::ProxyProtocol { allow_v1: false, allow_v2: true }),
         Some("v1v2") => c.proxy_protocol = Some(passage::config::ProxyProtocol { allow_v1: true, allow_v2: true }),
+        Some("neither") => c.proxy_protocol = Some(passage::config::ProxyProtocol { allow_v1: false, allow_v2: false }),
         _ => {}
     }
     if let Some(limit) = args.get(5).and_then(|l| l.parse::<usize>().ok()) {
